@@ -212,6 +212,42 @@ END
     ('Plain', [{'pp': {}}, {'pp': {'cc': E('red', 0)}, 'qq': E('green', 1)}]),
 ])
 
+# importer with EXTENSIBILITY IMPLIED, exporter without: the components copied by COMPONENTS OF carry inline
+# SEQUENCE / SET / CHOICE types without "..." whose implied marker depends on the order of the passes
+module('two-extimp', '''
+Zed DEFINITIONS AUTOMATIC TAGS EXTENSIBILITY IMPLIED ::= BEGIN
+IMPORTS Base, Deep FROM Alpha;
+Top ::= SEQUENCE { a INTEGER, COMPONENTS OF Base, z BOOLEAN }
+Two ::= SET { COMPONENTS OF Deep, y NULL }
+END
+Alpha DEFINITIONS AUTOMATIC TAGS ::= BEGIN
+Base ::= SEQUENCE { b1 BOOLEAN, in SEQUENCE { p INTEGER (0..7), q BOOLEAN OPTIONAL }, ch CHOICE { u NULL, w INTEGER (0..3) } }
+Deep ::= SEQUENCE { d1 SEQUENCE OF SEQUENCE { k INTEGER (0..15) }, d2 SET { m BOOLEAN, n ENUMERATED { e1, e2 } } }
+END
+''', [
+    ('Top', [{'a': 1, 'b1': True, 'in': {'p': 5}, 'ch': ('w', 2), 'z': False},
+             {'a': -3, 'b1': False, 'in': {'p': 0, 'q': True}, 'ch': ('u', None), 'z': True}]),
+    ('Two', [{'d1': [{'k': 9}, {'k': 0}], 'd2': {'m': True, 'n': E('e2', 1)}, 'y': None}]),
+    ('Base', [{'b1': True, 'in': {'p': 7, 'q': False}, 'ch': ('w', 3)}]),
+])
+
+# COMPONENTS OF through a chain of types, the middle one extensible, the last one in another module
+module('chain', '''
+Mid DEFINITIONS IMPLICIT TAGS ::= BEGIN
+IMPORTS Leaf FROM Low;
+Inner ::= SEQUENCE { i1 [0] INTEGER, COMPONENTS OF Leaf, ..., i9 [9] BOOLEAN OPTIONAL }
+Outer ::= SEQUENCE { o1 [10] BOOLEAN, COMPONENTS OF Inner, o2 [11] OCTET STRING DEFAULT 'FF'H }
+END
+Low DEFINITIONS EXPLICIT TAGS EXTENSIBILITY IMPLIED ::= BEGIN
+Leaf ::= SEQUENCE { l1 [1] BIT STRING { f(0), g(1) } DEFAULT { g }, l2 [2] ENUMERATED { on, off } DEFAULT off }
+END
+''', [
+    ('Outer', [{'o1': True, 'i1': 4}, {'o1': False, 'i1': -1, 'l1': (b'\x40', 2), 'l2': E('off', 1), 'o2': b'\xff'},
+               {'o1': True, 'i1': 0, 'l1': (b'\x80', 1), 'l2': E('on', 0), 'o2': b'\x00'}]),
+    ('Inner', [{'i1': 1}, {'i1': 1, 'l2': E('on', 0), 'i9': True}]),
+    ('Leaf', [{}, {'l1': (b'\xc0', 2)}]),
+])
+
 MODULE_NAMES = sorted(MODULES)
 
 
@@ -230,6 +266,7 @@ ADDR = re.compile(r'0x[0-9a-fA-F]{6,}')
 
 
 LAST_CLS = ['']
+LAST_PHASE = ['']
 
 
 def guarded(fn, patience=1):
@@ -246,6 +283,13 @@ def guarded(fn, patience=1):
         return 'exc', 'RecursionError'
     except BaseException as e:  # noqa
         LAST_CLS[0] = type(e).__name__
+        # where was it raised: inside the in-place pre-processing passes (what CompilePasses.tla models) or later,
+        # in a codec's own compiler
+        tb, names = e.__traceback__, []
+        while tb is not None:
+            names.append(tb.tb_frame.f_code.co_name)
+            tb = tb.tb_next
+        LAST_PHASE[0] = 'pre' if any(n.startswith('pre_process') for n in names) else 'codec'
         return 'exc', ADDR.sub('0x?', '%s: %s' % (type(e).__name__, str(e)[:300]))
     finally:
         signal.alarm(0)
@@ -621,6 +665,7 @@ def replay(case, fresh, snaps, full=False):
                 objs.append((rec, spec, codec, ne))
             else:
                 rec['st'], rec['msg'], rec['cls'] = st, str(spec), LAST_CLS[0]
+                rec['phase'] = LAST_PHASE[0] if st == 'exc' else ''
         after = abs_dict(d)
         rec['alias'] = after['alias']
         rec['after'] = snaps.put(after)
